@@ -2,3 +2,13 @@ import UtilModel.CContainer.Props
 open UtilModel UtilModel.CContainer
 #print axioms UtilModel.accepts_sound
 #print axioms UtilModel.monitor_of_simulation
+#print axioms UtilModel.CContainer.reachable_inv
+#print axioms UtilModel.CContainer.op_atomic
+#print axioms UtilModel.CContainer.cell_atomic
+#print axioms UtilModel.CContainer.swap_inc_adds
+#print axioms UtilModel.CContainer.wait_returns_held_value
+#print axioms UtilModel.CContainer.wait_canceled_only_if_fired
+#print axioms UtilModel.CContainer.wait_err_only_if_fired
+#print axioms UtilModel.CContainer.wait_parked_open_false
+#print axioms UtilModel.CContainer.wait_satisfied_enabled
+#print axioms UtilModel.CContainer.wait_quiescent_none_true
